@@ -92,13 +92,13 @@ def PlainHistory (ops : List Op) : Prop := ∀ op ∈ ops, op.plain = true ∨ o
     never calls `abort()` and never runs out of its recursion budget; the invariant holds again at the end.
     (The application only passes handles it holds, and issues nothing but ref/unref/close on a window that is
     closed or lies below a closed one — `tickit_window_close(3)`; that is what `step` skips.) -/
-theorem no_ub : ∀ (ops : List Op) (st : St), SInv st → PlainHistory ops →
-    ∃ st', runOps extracted st ops = .ok st' ∧ SInv st'
+theorem no_ub : ∀ (ops : List Op) (st : St), SInv .none st → PlainHistory ops →
+    ∃ st', runOps extracted st ops = .ok st' ∧ SInv .none st'
   | [], st, inv, _ => ⟨st, rfl, inv⟩
   | op :: rest, st, inv, h => by
     have hrest : PlainHistory rest := fun o ho => h o (by simp [ho])
     rcases h op (by simp) with hp | hpe | he
-    · obtain ⟨st1, r, hs, inv1⟩ := step_plain_ok extracted_repaired inv op hp
+    · obtain ⟨st1, r, hs, inv1⟩ := step_plain_ok extracted_repaired inv op hp (fun _ _ _ _ => rfl)
       obtain ⟨st2, hr, inv2⟩ := no_ub rest st1 inv1 hrest
       exact ⟨st2, by unfold runOps; rw [hs]; exact hr, inv2⟩
     · obtain ⟨st1, r, hs, inv1, _⟩ := step_pen_ok extracted_repaired inv op hpe
@@ -114,8 +114,8 @@ theorem no_ub : ∀ (ops : List Op) (st : St), SInv st → PlainHistory ops →
 
 /-- The same, from the very beginning: a terminal and its root window. -/
 theorem no_ub_from_start (lines cols : Int) (mock : Bool) (ops : List Op) (h : PlainHistory ops) :
-    ∃ st', runOps extracted {} (.newTerm lines cols mock :: ops) = .ok st' ∧ SInv st' := by
-  obtain ⟨st', hr, inv'⟩ := no_ub ops _ (SInv.init lines cols) h
+    ∃ st', runOps extracted {} (.newTerm lines cols mock :: ops) = .ok st' ∧ SInv .none st' := by
+  obtain ⟨st', hr, inv'⟩ := no_ub ops _ (SInv.init lines cols rfl) h
   refine ⟨st', ?_, inv'⟩
   unfold runOps step
   exact hr
@@ -201,7 +201,7 @@ theorem runOps_append (cfg : Cfg) : ∀ (ops1 ops2 : List Op) (s0 s1 : St), runO
     handlers call back into the library (the operation `bind` carries the handler's behaviour).  Not proved:
     see `handlers_counterexample` for why it is false as it stands, and `engines.d/C08.json` for what is open. -/
 def no_ub_handlers_full : Prop :=
-  ∀ (ops : List Op) (st : St), SInv st → (∀ op ∈ ops, op.plain = true ∨ op = .key ∨ (∃ m, op = .mouse m) ∨ op = .«end») →
+  ∀ (ops : List Op) (st : St), SInv .none st → (∀ op ∈ ops, op.plain = true ∨ op = .key ∨ (∃ m, op = .mouse m) ∨ op = .«end») →
     (runOps extracted st ops).isOk = true
 
 /-- Known finding `cascade_steals_claim`: a mouse handler that drops its own window and its parent and claims the
@@ -240,14 +240,14 @@ def EventHistory (ops : List Op) : Prop :=
     `on_term_mouse`), and the invariant of `no_ub` holds again afterwards.  The proof carries the account
     `1 + int i ≤ refcount i ≤ appRefs i + int i` through the recursion, `int i` being the references the frames hold
     on window `i` (Proof/LifeKeys.lean, Proof/LifeMouse.lean). -/
-theorem no_ub_handlers_keeping : ∀ (ops : List Op) (st : St), SInv st → KeepingHandlers st → EventHistory ops →
-    ∃ st', runOps extracted st ops = .ok st' ∧ SInv st' ∧ KeepingHandlers st'
+theorem no_ub_handlers_keeping : ∀ (ops : List Op) (st : St), SInv .none st → KeepingHandlers st → EventHistory ops →
+    ∃ st', runOps extracted st ops = .ok st' ∧ SInv .none st' ∧ KeepingHandlers st'
   | [], st, inv, H, _ => ⟨st, rfl, inv, H⟩
   | op :: rest, st, inv, H, h => by
     have hrest : EventHistory rest := fun o ho => h o (by simp [ho])
     obtain ⟨hkind, hbind⟩ := h op (by simp)
     rcases hkind with hp | hpe | hk | ⟨m, hm⟩
-    · obtain ⟨st1, r, hs, inv1⟩ := step_plain_ok extracted_repaired inv op hp
+    · obtain ⟨st1, r, hs, inv1⟩ := step_plain_ok extracted_repaired inv op hp (fun _ _ _ _ => rfl)
       have H1 := step_plain_keeps hp H hbind hs
       obtain ⟨st2, hr, inv2, H2⟩ := no_ub_handlers_keeping rest st1 inv1 H1 hrest
       exact ⟨st2, by unfold runOps; rw [hs]; exact hr, inv2, H2⟩
@@ -327,10 +327,10 @@ example : (runOps extracted {} [.newTerm 6 12 false, .win 0 ⟨0, 0, 2, 2⟩ 0, 
 /-- Dropping every reference the application holds (`end`: windows from the highest handle down to the root,
     then pens, strings, buffers, the terminal) never fails, whatever the history before, and leaves nothing
     allocated: every window, pen, string, buffer and the terminal is freed and no restacking request is queued. -/
-theorem drop_all_never_fails (st : St) (inv : SInv st) :
-    ∃ st', dropAll extracted st = .ok st' ∧ SInv st' ∧ anythingLeft st' = false := by
+theorem drop_all_never_fails (st : St) (inv : SInv .none st) :
+    ∃ st', dropAll extracted st = .ok st' ∧ SInv .none st' ∧ anythingLeft st' = false := by
   obtain ⟨st', h, inv', H⟩ := dropAll_ok extracted_repaired inv
-  exact ⟨st', h, inv', nothing_left inv' H⟩
+  exact ⟨st', h, inv', nothing_left inv' H rfl (fun _ => rfl)⟩
 
 /-- **all_released**: after any history of operations without event handlers (windows created, referenced, closed,
     restacked, destroyed parents-first or children-first, pens shared between windows and the application,
@@ -355,7 +355,7 @@ theorem all_released (lines cols : Int) (mock : Bool) (ops : List Op) (h : Plain
 /-- The same from the very beginning, and with the final release of everything: nothing remains allocated. -/
 theorem all_released_handlers_keeping (lines cols : Int) (mock : Bool) (ops : List Op) (h : EventHistory ops) :
     ∃ st, runOps extracted {} (.newTerm lines cols mock :: ops ++ [.«end»]) = .ok st ∧ anythingLeft st = false := by
-  obtain ⟨st1, hr, inv1, _⟩ := no_ub_handlers_keeping ops _ (SInv.init lines cols) (keepingHandlers_init lines cols) h
+  obtain ⟨st1, hr, inv1, _⟩ := no_ub_handlers_keeping ops _ (SInv.init lines cols rfl) (keepingHandlers_init lines cols) h
   obtain ⟨st2, hd, _, hleft⟩ := drop_all_never_fails st1 inv1
   refine ⟨st2, ?_, hleft⟩
   have h0 : runOps extracted {} (.newTerm lines cols mock :: ops) = .ok st1 := by
